@@ -42,7 +42,7 @@ fn main() {
                 "thorough" => Tier::Thorough,
                 _ => usage(),
             };
-            let budget = std::env::var("VERIF_BUDGET_S").ok().and_then(|v| v.parse::<u64>().ok()).unwrap_or(if tier == Tier::Thorough { 3000 } else { 0 });
+            let budget = std::env::var("VERIF_BUDGET_S").ok().and_then(|v| v.parse::<u64>().ok()).unwrap_or(if tier == Tier::Thorough { 1800 } else { 0 });
             harness::BUDGET_S.store(budget, std::sync::atomic::Ordering::Relaxed);
             println!("property={} tier={} VERIF_SEED={} workers={}", args[2], tier.name(), harness::base_seed(), harness::n_workers());
             match args[2].as_str() {
